@@ -33,6 +33,7 @@ var c19Profile = func() projgen.Profile {
 	pf := projgen.FullProfile
 	pf.Decoys = false
 	pf.MaxControllers, pf.MaxMethods = 3, 4
+	pf.StrayController = true
 	return pf
 }()
 
